@@ -279,6 +279,14 @@ def gen_doc(
                 else:
                     rec_calls_meta.append((None, None, None))
                 calls.append(call)
+            if not has_gt and phasing and rng.random() < 0.5:
+                # a record without GT that still carries phase tags (e.g. GT stripped from a phased file)
+                if phasing == "PS":
+                    use_ps = True
+                    rec_calls_meta = [(str(pos), None, None) for _ in calls]
+                else:
+                    use_hp = True
+                    rec_calls_meta = [(None, "%d-1,%d-2" % (pos, pos), None) for _ in calls]
             if use_ps:
                 fmt.append("PS")
             if use_hp:
